@@ -2,6 +2,7 @@ package main
 
 import (
 	"bufio"
+	"errors"
 	"fmt"
 	"io"
 	"os"
@@ -31,7 +32,7 @@ type FaultPlan struct {
 	Err string `json:"err,omitempty"`
 }
 
-var errKinds = []string{"", "temporary", "timeout", "shortwrite", "eof", "closedpipe", "epipe", "deadline", "slice", "mapstruct"}
+var errKinds = []string{"", "temporary", "timeout", "shortwrite", "eof", "closedpipe", "epipe", "deadline", "slice", "mapstruct", "joined"}
 
 // Error values of UNCOMPARABLE dynamic types (a slice type, as errors.Join-like aggregates
 // are; a struct value with a map field): comparing two of them with == panics, so code that
@@ -157,6 +158,11 @@ func NewSink(plan *FaultPlan, id uint64) *Sink {
 	}
 	var e error = &simErr{id, k}
 	switch k {
+	case "joined":
+		// the destination's error is itself a multi-error (a fan-out or mirroring writer that
+		// joins the errors of its parts): a value with Unwrap() []error. Code that reduces such
+		// errors to "the first cause" loses the writer's error.
+		e = errors.Join(&simErr{id, "part 1 of 2"}, &simErr{id, "part 2 of 2"})
 	case "slice":
 		e = sliceErr{id}
 	case "mapstruct":
